@@ -226,6 +226,10 @@ def confirm(c, outs):
         if lv != rv: return True, f'{prof}: {law}: SI values {lv} vs {rv}'
     return False, 'real build satisfies the law on this input'
 
+def validate(tier, seed, report):
+    from props import unitlib
+    return unitlib.validate_kernels(seed, 80 if tier == 'quick' else 400, ops=('add', 'sub', 'mul', 'div'))
+
 def known_match(k, c): return True
 
 if __name__ == '__main__':
